@@ -134,6 +134,38 @@ def packedSize (k : SK) (tag : Nat) (vs : List V) : Nat :=
 
 def wiresOf (ops : List EncOp) : Bytes := (ops.map EncOp.wire).flatten
 
+/-! ## nil pointers in a message-valued map
+
+  `SizeOfMapEntry` wraps the whole `sz +=` of an entry whose value kind is `message` in `if v != nil { … }`, and
+  `MarshalMapEntry` starts the iteration with `if v == nil { continue }`: an entry whose value is a nil pointer adds
+  nothing to `Size()` and nothing is written for it (no key of the field, no entry length, no entry key).  An entry
+  is a value of the synthetic entry type (key = first field, value = second field); the nil pointer is `F.unset` in
+  the value position.
+
+  The other positions a nil `*T` can occupy need no arm of their own:
+  * singular message field (`explicit`, `required`): `if m.X != nil` / `if m.X == nil { return error }` = `F.unset`;
+  * element of a repeated message field, member of a oneof wrapper: the snippets have NO nil test, they call
+    `csproto.Size(val)` (= 0, `Size()` on a nil receiver) and `EncodeNested(n, val)` (key, length 0,
+    `MarshalTo` on a nil receiver is a no-op, also when the type declares required fields): an empty record.
+    A non-message `V` in message position (`sizeMsgV _ = 0`, `bytesMsgV _ = .ok []`) is that nil pointer. -/
+
+def Card.isMap : Card → Bool
+  | .map => true
+  | _ => false
+
+/-- the entry type's value field (second field) is a message -/
+def msgValued : MD → Bool
+  | _ :: fd :: _ => (match fd.ty with | .msg _ => true | .sc _ => false)
+  | _ => false
+
+/-- the entry's value (second field) is a nil pointer -/
+def valUnset : V → Bool
+  | .msg (_ :: .unset :: _) _ => true
+  | _ => false
+
+/-- `v == nil` of the two map snippets (the test only exists when the value kind is `message`) -/
+def nilEntry (emd : MD) (e : V) : Bool := msgValued emd && valUnset e
+
 /-! ## `Size()` -/
 
 mutual
@@ -159,16 +191,20 @@ def sizeField (S : Schema) (fd : FD) : F → Nat
       match fd.card with
       | .packed => packedSize k fd.num vs
       | _ => sumSizes (scalarSize k fd.num) vs
-    | .msg i => sizeMsgList S (S.md i) fd.num vs
+    | .msg i => sizeMsgList S (S.md i) fd.num fd.card.isMap vs
 
 /-- `csproto.Size(m)` of a nested generated message -/
 def sizeMsgV (S : Schema) (md : MD) : V → Nat
   | .msg fs unk => sizeFields S md fs + unk.length
   | _ => 0
 
-def sizeMsgList (S : Schema) (md : MD) (tag : Nat) : List V → Nat
+/-- the `range` loop of a repeated message field (`skipNil = false`: no nil test) and of a map field
+    (`skipNil = true`: `SizeOfMapEntry`, `if v != nil { … }` around the `sz +=` of a message-valued entry) -/
+def sizeMsgList (S : Schema) (md : MD) (tag : Nat) (skipNil : Bool) : List V → Nat
   | [] => 0
-  | v :: vs => (let l := sizeMsgV S md v; sizeOfTagKey tag + sizeOfVarint l + l) + sizeMsgList S md tag vs
+  | v :: vs =>
+    (if skipNil && nilEntry md v then 0 else (let l := sizeMsgV S md v; sizeOfTagKey tag + sizeOfVarint l + l))
+      + sizeMsgList S md tag skipNil vs
 end
 
 /-! ## `MarshalTo()` as a sequence of encoder calls -/
@@ -203,7 +239,7 @@ def opsField (S : Schema) (fd : FD) : F → Res (List EncOp)
       match fd.card with
       | .packed => .ok (if vs.isEmpty then [] else [packedOp k fd.num vs])
       | _ => .ok (vs.map (scalarOp k fd.num))
-    | .msg i => opsMsgList S (S.md i) fd.num vs
+    | .msg i => opsMsgList S (S.md i) fd.num fd.card.isMap vs
 
 /-- the bytes a nested generated message's `MarshalTo` produces in a buffer of its own `Size()`
     (stated functionally here; `Props/C04` proves that running the calls on that buffer gives exactly
@@ -216,12 +252,14 @@ def bytesMsgV (S : Schema) (md : MD) : V → Res Bytes
     | .panic => .panic
   | _ => .ok []
 
-def opsMsgList (S : Schema) (md : MD) (tag : Nat) : List V → Res (List EncOp)
+/-- … `MarshalMapEntry`: `if v == nil { continue }` when `skipNil` -/
+def opsMsgList (S : Schema) (md : MD) (tag : Nat) (skipNil : Bool) : List V → Res (List EncOp)
   | [] => .ok []
   | v :: vs =>
+    if skipNil && nilEntry md v then opsMsgList S md tag skipNil vs else
     match bytesMsgV S md v with
     | .ok body =>
-      match opsMsgList S md tag vs with
+      match opsMsgList S md tag skipNil vs with
       | .ok rest => .ok (.nested tag (sizeMsgV S md v) 0 (some body) :: rest)
       | r => r
     | .err => .err
